@@ -46,6 +46,26 @@ theorem c16_runset_is_closure (sem : RunSem) (hs : sem.skipSelf = true) (hmf : s
     · obtain ⟨l', hl', hm'⟩ := closure_spec wf hac t (wf.n + 1) (by have := hts t ht; omega)
       exact ⟨t, ht, Or.inr ⟨l', hl', (hm' q).2 hr⟩⟩
 
+/-- reachability composes -/
+theorem reach_trans (wf : Wf) {a b c : Nat} (h1 : Reach wf a b) (h2 : Reach wf b c) : Reach wf a c := by
+  induction h2 with
+  | direct hb => exact Reach.trans hb h1
+  | trans hu _ ih => exact Reach.trans hu ih
+
+/-- the run set of `RunTo` is closed under "upstream of": every process that feeds a started process is started
+too, so no started process waits on an in-port whose producer does not run (the other direction — out-ports
+whose consumers do not run — is what `reconnectDeadEndConnections` redirects to the sink) -/
+theorem c16_runset_upstream_closed (sem : RunSem) (hs : sem.skipSelf = true) (hmf : sem.mergesFile = true)
+    (hmp : sem.mergesParam = true) (wf : Wf) (hac : acyclic wf)
+    (ts : List Nat) (hts : ∀ t ∈ ts, t ≤ wf.n) (rs : List Nat) (hrs : runSet sem wf (some ts) = some rs)
+    (q u : Nat) (hq : q ∈ rs) (hu : u ∈ ups wf true q) : u ∈ rs := by
+  obtain ⟨rs', hrs', _, hmem⟩ := c16_runset_is_closure sem hs hmf hmp wf hac ts hts
+  rw [hrs] at hrs'; simp at hrs'; subst hrs'
+  rw [hmem] at hq ⊢
+  rcases hq with hq | ⟨t, ht, hr⟩
+  · exact Or.inr ⟨q, hq, Reach.direct hu⟩
+  · exact Or.inr ⟨t, ht, reach_trans wf (Reach.direct hu) hr⟩
+
 theorem planLeaf_started (sem : RunSem) (wf : Wf) (rs : List Nat) (isRun : Bool) (dd : Nat) (gs : List Nat)
     (d : Option Nat) (b : Bool) (hp : planLeaf sem wf rs isRun dd = .started gs d b) :
     gs = goroutines sem rs isRun dd ∧ d = some dd ∧ b = sem.sinkWaited := by
@@ -185,6 +205,8 @@ end SciVerif.Graph
 
 #print axioms SciVerif.Graph.c16_closure_is_upstream
 #print axioms SciVerif.Graph.c16_runset_is_closure
+#print axioms SciVerif.Graph.reach_trans
+#print axioms SciVerif.Graph.c16_runset_upstream_closed
 #print axioms SciVerif.Graph.planLeaf_started
 #print axioms SciVerif.Graph.mem_goroutines
 #print axioms SciVerif.Graph.removedB_good
